@@ -106,6 +106,9 @@ def delay_plans(case, dry, mod, tier, rng):
     # in the forked children (C18: a failing reopen must not leave the child on the inherited descriptor)
     for role, qn, rel in pe.worker_sites(tuple(getattr(mod, "FAULT_QUALNAMES", ()))):
         plans.append([["worker*", qn, rel, 1, "raise_os", 24]])
+    if case.get("sweep_only"):
+        # a slow base case: only the statements of the named functions are delayed
+        plans = [p for p in plans if p[0][1] in case["sweep_only"]]
     single = [p for p in plans if p[0][4] == "sleep"]
     # random-k: pairs / triples of delay points from different roles, 20-150 ms
     nk = getattr(mod, "RANDOM_K", {"quick": 8, "thorough": 150})[tier]
